@@ -14,7 +14,24 @@ VALCHARS = KEYCHARS + "==="
 
 
 A4 = (bytes((10, 0, 0, 1)), bytes((239, 1, 2, 3)))
-A6 = (bytes(15) + b"\x01", bytes.fromhex("ff0e0000000000000000000000000101"))
+A6 = (bytes(15) + b"\x01", bytes.fromhex("ff0e0000000000000000000000000101"),
+      bytes(10) + b"\xff\xff" + bytes((10, 0, 0, 1)))  # the last one is A4[0] written as an IPv4-mapped IPv6 address
+
+
+def special_ip4(rng):
+    return rng.choice((bytes(4), b"\xff" * 4, bytes((127, 0, 0, 1)), bytes((224, 0, 0, rng.randrange(256))),
+                       bytes((169, 254, rng.randrange(256), rng.randrange(256))), bytes((192, 0, 2, rng.randrange(256)))))
+
+
+def special_ip6(rng):
+    """addresses of the ranges the address library treats specially: unspecified, loopback, IPv4-mapped, IPv4-compatible,
+    NAT64, 6to4, Teredo, link-local, unique-local, multicast, all ones"""
+    v4 = rng.choice((bytes((10, 0, 0, 1)), gen.rbytes(rng, 4), special_ip4(rng)))
+    return rng.choice((
+        bytes(16), bytes(15) + b"\x01", bytes(10) + b"\xff\xff" + v4, bytes(10) + b"\xff\xff" + v4, bytes(12) + v4,
+        bytes.fromhex("0064ff9b") + bytes(8) + v4, b"\x20\x02" + v4 + gen.rbytes(rng, 10), bytes.fromhex("20010000") + gen.rbytes(rng, 12),
+        b"\xfe\x80" + bytes(6) + gen.rbytes(rng, 8), b"\xfd" + gen.rbytes(rng, 15), b"\xff\x02" + bytes(13) + bytes((rng.randrange(256),)),
+        b"\xff" * 16, bytes(8) + b"\xff\xff" + gen.rbytes(rng, 6)))
 
 
 def gen_sibling(rng):
@@ -43,11 +60,11 @@ def gen_option(rng, uniq=None):
     if r < 0.22:
         proto = rng.choice((6, 17, 17, 0, 1, 255, rng.randrange(256)))
         port, _ = gen.u16(rng)
-        return ("ip4", rng.choice(IP4_TYPES), gen.rbytes(rng, 4), proto, port)
+        return ("ip4", rng.choice(IP4_TYPES), special_ip4(rng) if rng.random() < 0.25 else gen.rbytes(rng, 4), proto, port)
     if r < 0.40:
         proto = rng.choice((6, 17, 17, 0, 1, 255, rng.randrange(256)))
         port, _ = gen.u16(rng)
-        return ("ip6", rng.choice(IP6_TYPES), gen.rbytes(rng, 16), proto, port)
+        return ("ip6", rng.choice(IP6_TYPES), special_ip6(rng) if rng.random() < 0.4 else gen.rbytes(rng, 16), proto, port)
     if r < 0.52:
         return ("lb", gen.u16(rng)[0], gen.u16(rng)[0])
     if r < 0.80:
